@@ -14,6 +14,9 @@ CONSTANTS
  MaxPool = 2
  MaxProv = 0
  MaxSteps = 0
+ DefUrls = {""}
+ DefExtras = {{}}
+ EnvUrls = {""}
  RdKinds = {}
  RdPres = {}
  RdBodies = {}
